@@ -4,9 +4,9 @@ import runlib as R
 ID = 'C20'
 COQ_TARGETS = ['Props/Properties_C20.vo']
 PROPS_FILES = ['Props/Properties_C20.v']
-THEOREMS = ['C20_sortmx', 'C20_sortmx_stable', 'C20_spec_checker_sound', 'C20_tryconn_once', 'C20_not_me', 'C20_targets', 'C20_ports']
+THEOREMS = ['C20_sortmx', 'C20_sortmx_stable', 'C20_spec_checker_sound', 'C20_tryconn_once', 'C20_not_me', 'C20_targets', 'C20_route_order', 'C20_route_empty_relay', 'C20_ports']
 ENGINES = [dict(name='mx', c_sources=['mx_h.c'], extract='Extract/Extract_mx.v', driver='mx_driver.ml',
-                accepts=lambda c: c.split(' ')[0] in ('01', '02', '03', '05'))]
+                accepts=lambda c: c.split(' ')[0] in ('01', '02', '03', '04', '05'))]
 RULE = ('cases = (01) MX lists of 1..9 entries, preferences drawn from a small set with many ties plus the special values '
         '65535..65539 and 2^32-1, 1..4 addresses per entry from a small pool of IPv6 / v4-mapped / nearly-v4-mapped addresses, '
         'a few entries without addresses; (02) the same lists fresh or with USED/CURRENT marks and cur_s 0..3, 0..12 tryconn calls, '
@@ -100,11 +100,76 @@ def ifaces(rng, es):
         else: out += bytes([rng.choice([1, 2, 9, 17])]) + a
     return out.hex()
 
+# ---------------------------------------------------------------- smtproute cases
+HOSTS = [b'foo.example.net', b'example.net', b'a.b.example.net', b'Foo.Example.NET', b'other.org', b'net', b'x.y', b'.example.net', b'a..b',
+         b'example.net.', b'default', b'*.example.net', b'']
+RELAYS = [(b'mail.example.net', [v6(1)]), (b'mx2', [v4(10, 0, 0, 9), v6(2)]), (b'10.0.0.5', [v4(10, 0, 0, 5)]), (b'empty', []), (b'r', [v6(7), v6(8), v4(1, 2, 3, 4)])]
+PORTS = [b'25', b'26', b'587', b'2525', b'24'] * 4 + [b'1', b'65535', b'65536', b'0', b'100000', b'4294967321', b'4294967296', b'18446744073709551641', b'99999999999999999999999',
+         b'', b'25x', b'x', b'+25', b'-1', b'-4294967271', b'025', b'2 5'.replace(b' ', b'')]
+
+def dns_field(tab):
+    return (b''.join(bytes([len(n)]) + n + bytes([len(a)]) + b''.join(a) for n, a in tab)).hex() or '-'
+
+def probe_names(h):
+    out = [h]
+    for i, c in enumerate(h):
+        if c == 0x2e:
+            out.append(b'*' + h[i:])
+    return out + [b'default']
+
+def d_file_content(rng):
+    lines = []
+    for _ in range(rng.choice([0, 1, 1, 2, 2, 3, 4])):
+        x = rng.random()
+        if x < 0.4: lines.append(b'relay=' + rng.choice([r[0] for r in RELAYS if r[1]] * 3 + [b'empty', b'unresolved', b'']))
+        elif x < 0.75: lines.append(b'port=' + rng.choice(PORTS))
+        elif x < 0.85: lines.append(rng.choice([b'foo=bar', b'nokey', b'=x', b'relayx=mx2', b'xrelay=mx2', b'rela=mx2', b'portal=25', b'Relay=mx2']))
+        else: lines.append(rng.choice([b'relay=mx2', b'port=2525']))
+    rng.shuffle(lines)
+    return b'\n'.join(lines) + (b'\n' if lines and rng.random() < 0.8 else b'') + (b'\n\n' if rng.random() < 0.1 else b'')
+
+def routes_content(rng, host):
+    lines = []
+    names = [host, host.upper(), host.lower()] + [host[i:] for i, c in enumerate(host) if c == 0x2e] + [host[i + 1:] for i, c in enumerate(host) if c == 0x2e]
+    for _ in range(rng.choice([0, 1, 2, 2, 3, 4, 6])):
+        x = rng.random()
+        pat = rng.choice(names) if x < 0.45 else b'' if x < 0.55 else rng.choice([b'other.org', b'.org', b'x' + host, b'.' + host, b'example.net'])
+        relay = rng.choice([r[0] for r in RELAYS if r[1]] * 3 + [b'', b'', b'', b'empty', b'unresolved'])
+        y = rng.random()
+        if y < 0.45: ln = pat + b':' + relay
+        elif y < 0.85: ln = pat + b':' + relay + b':' + rng.choice(PORTS)
+        elif y < 0.93: ln = rng.choice([b'nocolon', pat, b'x' + pat])
+        else: ln = pat + b':' + relay + b':25:1'
+        lines.append(ln)
+    return b'\n'.join(lines) + (b'\n' if lines else b'')
+
+def route_case(rng):
+    host = rng.choice(HOSTS) if rng.random() < 0.9 else rng.choice([b'a.' * 126 + b'ab', b'a.' * 127, b'.' + b'a' * 253, b'.' + b'a' * 254, b'a' * 255, b'b.' + b'a' * 252, b'b.' + b'a' * 253])
+    tab = [r for r in RELAYS if rng.random() < 0.93]
+    flags = (1 if rng.random() < 0.7 else 0) | (2 if rng.random() < 0.75 else 0)
+    files = []
+    names = probe_names(host)
+    cand = [n for n in names if 0 < len(n) <= 255 and n not in (b'.', b'..')]
+    distract = [b'*' + host, host + b'.', b'*', b'default.', b'Default', host.upper(), b'*.org', b'other.org', b'*net', b'*.NET']
+    chosen = set()
+    for n in cand:
+        if rng.random() < rng.choice([0.0, 0.15, 0.3, 0.6]):
+            chosen.add(n)
+    for n in distract:
+        if rng.random() < 0.15 and 0 < len(n) <= 255:
+            chosen.add(n)
+    chosen = [n for n in chosen if b'/' not in n]
+    rng.shuffle(chosen)
+    for n in chosen:
+        files.append((bytes([len(n)]) + n + d_file_content(rng)).hex())
+    rc = routes_content(rng, host) if flags & 1 else b''
+    return ' '.join(['04', R.hx(host), dns_field(tab), (bytes([flags]) + rc).hex()] + files)
+
 def total_addrs(es):
     return sum((len(e) // 2 - 5) // 16 for e in es)
 
 def gen_cases(engine, rng, tier):
-    n = 700 if tier == 'quick' else 30000
+    n = 2000 if tier == 'quick' else 40000
     out = []
     for i in range(n):
         # 01 sort
@@ -128,6 +193,8 @@ def gen_cases(engine, rng, tier):
         port = rng.choice([25, 25, 25, 25, 24, 26, 587, 2525])
         par = bytes([rng.randrange(0, min(t + 3, 12)), 0, port >> 8, port & 255])
         out.append(' '.join(['05', par.hex(), R.hx(oracle(rng, t)), ifaces(rng, es)] + es))
+        # 04 smtproute
+        out.append(route_case(rng))
     return out
 
 def _entries(fields):
@@ -144,13 +211,16 @@ def nontrivial(case, c_out):
         return any(a.startswith('A') and b.startswith('A') for a, b in zip(toks, toks[1:]))
     if f[0] == '03':
         return c_out.startswith('OK') and sum(len(x) for x in c_out.split(' ')[1:]) < sum(len(x) for x in f[2:])
+    if f[0] == '04':
+        # a route was found although at least two files / lines were candidates
+        return c_out.startswith('ROUTE') and not c_out.endswith('NONE') and (len(f) > 5 or bytes.fromhex(f[3])[1:].count(b'\n') > 1)
     return False
 
 def distribution(results):
     d = {}
     for r in results:
         op = r['case'][:2]
-        k = op + ':' + ('crash' if r['c'] in ('CRASH', 'TIMEOUT') else 'allme' if r['c'] == 'ALLME' else 'pre' if r['spec'] == 'pre' else 'run')
+        k = op + ':' + ('crash' if r['c'] in ('CRASH', 'TIMEOUT') else 'allme' if r['c'] == 'ALLME' else 'fatal' if r['c'] == 'FATAL' else 'pre' if r['spec'] == 'pre' else 'noroute' if r['c'].endswith(' NONE') else 'run')
         d[k] = d.get(k, 0) + 1
     return d
 
